@@ -431,9 +431,11 @@ fn run_one(payload: &str) -> String {
     }
     let (cfg, ress, fns, reqs) = (p[0], p[1], p[2], p[3]);
     // `loc=a+b+c`: the bundle's locale CHAIN; the formatter memoizer (plural rules included) is bound to the first
-    let chain: Result<Vec<LanguageIdentifier>, _> = kv(cfg, "loc").split('+').map(|l| l.parse::<LanguageIdentifier>()).collect();
+    // `loc=-` is the EMPTY chain (the memoizer is then created for LanguageIdentifier::default())
+    let chain: Result<Vec<LanguageIdentifier>, _> =
+        kv(cfg, "loc").split('+').filter(|l| *l != "-").map(|l| l.parse::<LanguageIdentifier>()).collect();
     let chain = match chain {
-        Ok(c) if !c.is_empty() => c,
+        Ok(c) => c,
         _ => return "bad-case".into(),
     };
     let reqs: Option<Vec<Req>> = reqs.split(',').map(parse_req).collect();
